@@ -25,6 +25,9 @@
 (* Mode "rows"   : every row up to MaxCols tokens            (pattern R)   *)
 (* Mode "objs"   : every qualified-name shape, round trip    (pattern R)   *)
 (* Mode "update" : every fault configuration                 (pattern S)   *)
+(* Mode "urls"   : every name path of depth <= 3 whose components may repeat  *)
+(*                 the root's own name, in projects with one / two roots:  *)
+(*                 the page that documents it                              *)
 (* Mode "writes" : every sequence of up to 3 generate() calls (writer x     *)
 (*                 project) in one process, each file read back            *)
 (* Mode "hist"   : every sequence of up to 4 look-ups / loads on one reader  *)
@@ -47,6 +50,15 @@ FileRows == IF Mode = "file" THEN JsonDeserialize(IOEnv.ROWS_FILE) ELSE <<>>
 IsInt(c)    == c = "int"
 HistEvents == {"L1", "L2", "I1", "I2", "B1"}
 NameOf(e) == IF e \in {"L1", "I1", "B1"} THEN "n1" ELSE "n2"
+\* ---- where an object is documented (model.Documentable.url :233-249, the target written into objects.inv).
+\* A page object (package, module, class) has its own page, named after its FULL name; the one exception is the only
+\* root of a single-root project, which is index.html.  Names are sequences of components: "r" = the root's own
+\* short name, "x" = any other name - a module or class deeper in the tree may well be called like the root
+\* (foo/foo.py, class foo in foo.bar).
+RefPage(names, nroots) == IF nroots = 1 /\ Len(names) = 1 THEN <<"index">> ELSE names
+UrlCases == {s \in UNION {[1..k -> {"r", "x"}] : k \in 1..3} : s[1] = "r"}
+\* different page objects are never documented on the same page
+PagesDistinct == \A nroots \in 1..2 : \A s1, s2 \in UrlCases : s1 # s2 => RefPage(s1, nroots) # RefPage(s2, nroots)
 Writers  == {"w1", "w2"}          \* SphinxInventoryWriter objects living in one process
 Projects == {"p1", "p2"}          \* p1: one root; p2: several roots
 Hosts    == {"h1", "h2"}
@@ -173,6 +185,8 @@ Init ==
          /\ dups = <<>> /\ cfg = NoCfg /\ pc = "done"
       \/ /\ Mode = "objs" /\ row = <<>> /\ cfg = NoCfg /\ pc = "done"
          /\ dups \in {d \in (SeqsUpTo(BOOLEAN, MaxDepth) \ {<<>>}) : ~d[1]}          \* a module is never a duplicate
+      \/ /\ Mode = "urls" /\ row = <<>> /\ dups = <<>> /\ pc = "done"
+         /\ cfg \in [names : {s \in (SeqsUpTo({"r", "x"}, 3) \ {<<>>}) : s[1] = "r"}, roots : 1..2]
       \/ /\ Mode = "writes" /\ row = <<>> /\ dups = <<>> /\ pc = "writes"
          /\ cfg \in (SeqsUpTo([w : Writers, p : Projects], 3) \ {<<>>})
       \/ /\ Mode = "hist" /\ row = <<>> /\ dups = <<>> /\ pc = "hist"
@@ -277,6 +291,7 @@ DesignKnown ==
    /\ EachGoodResolves
    /\ LookupsFollowLoads
    /\ EachFileComplete
+   /\ (Mode = "urls" => PagesDistinct)
 
 Emit ==
    CASE Mode \in {"rows", "file"} ->
@@ -285,6 +300,8 @@ Emit ==
      [] Mode = "objs" ->
           PrintT(ToJson([dups |-> dups, row |-> WriteLine(dups), impl |-> ImplParse(WriteLine(dups)),
                          roundtrip |-> RoundTrip(dups), sphinx |-> RoundTripSphinx(dups)]))
+     [] Mode = "urls" ->
+          PrintT(ToJson([names |-> cfg.names, roots |-> cfg.roots, page |-> RefPage(cfg.names, cfg.roots)]))
      [] Mode = "writes" ->
           (Terminal => PrintT(ToJson([cfg |-> cfg, answers |-> answers])))
      [] Mode = "hist" ->
